@@ -171,7 +171,7 @@ class FilterSummary:
             neg, e = True, e.operand
         d = self._single_def(e, s)
         # (a) box-drop: mask = any(U > hi, axis=1) | any(U < lo, axis=1)
-        box = self._box_mask(d)
+        box = self._box_mask(d, s)
         if box is not None:
             sides, elementwise = box
             want = {("<", self.p_hi, self.p_rows), ("<", self.p_rows, self.p_lo)}
@@ -189,6 +189,16 @@ class FilterSummary:
             sorted_ = True
             name = name.args[0]
         sub = None
+        u = None
+        if isinstance(name, ast.Subscript) and isinstance(name.value, ast.Name):
+            # rows[idx[idx < n]] written without a temporary for the index vector
+            sub = name
+            u = self._unique_source(name.value, s)
+            if u is not None:
+                src, call = u
+                srcd = self._single_def(src, s) if isinstance(src, ast.Name) else src
+                if isinstance(srcd, ast.Call) and call_name(srcd) in ("np.vstack", "np.concatenate", "np.append"):
+                    return self._classify_removal(srcd, sub, s)
         if isinstance(name, ast.Name):
             u = self._unique_source(name, s)
             if u is None:
@@ -218,7 +228,7 @@ class FilterSummary:
         d = self._defs_of(name.id, at)
         return d[0] if len(d) == 1 else None
 
-    def _box_mask(self, d):
+    def _box_mask(self, d, at=None):
         """-> (set of (rel, a, b) sides, elementwise?) when d is an out-of-box mask."""
         parts = []
 
@@ -232,6 +242,8 @@ class FilterSummary:
             elif isinstance(e, ast.BoolOp) and isinstance(e.op, ast.Or):
                 for v in e.values:
                     split(v)
+            elif isinstance(e, ast.Name) and at is not None and self._single_def(e, at) is not e:
+                split(self._single_def(e, at))  # one side of the mask kept in a local
             else:
                 parts.append(e)
 
@@ -267,22 +279,27 @@ class FilterSummary:
         -> (X, call)."""
         if not isinstance(idx_expr, ast.Name):
             return None
-        best = None
+        # definitions of the index name that reach ``at`` (CFG, not line numbers: inlined statements keep the line numbers
+        # of the helper they came from)
+        reaching = {id(v) for v in self._defs_of(idx_expr.id, at)}
+        hits = []
         for t, v, s, k in iter_stores(self.fn.node):
-            if not (isinstance(t, ast.Name) and t.id == idx_expr.id and s.lineno <= at.lineno):
+            if not (isinstance(t, ast.Name) and t.id == idx_expr.id and id(v) in reaching):
                 continue
+            if isinstance(v, ast.Subscript) and isinstance(v.value, ast.Call) and call_name(v.value) == "np.unique" and const_num(v.slice) == 1 and k == "assign" and v.value.args:
+                ri = kw(v.value, "return_index")
+                if isinstance(ri, ast.Constant) and ri.value is True:
+                    hits.append((v.value.args[0], v.value))
+                    continue
             if isinstance(v, ast.Call) and call_name(v) == "np.unique" and k == "assign[1]" and v.args:
                 ri = kw(v, "return_index")
                 if isinstance(ri, ast.Constant) and ri.value is True:
-                    if best is None or s.lineno > best[2]:
-                        best = (v.args[0], v, s.lineno)
+                    hits.append((v.args[0], v))
                     continue
-            # a later, different definition hides the unique result
-            if best is not None and s.lineno > best[2]:
-                best = None
-        if best is None:
+            return None  # some reaching definition is not a unique-index vector
+        if len(hits) != 1:
             return None
-        return best[0], best[1]
+        return hits[0]
 
     def _origin(self, e, at, depth=0) -> str:
         """'cand' if e derives from the result rows, 'log' if from the log's X."""
@@ -313,13 +330,22 @@ class FilterSummary:
             cmp_ = sel_expr.slice
             op = type(cmp_.ops[0])
             rhs = cmp_.comparators[0]
-            n_of = None
+            if isinstance(rhs, ast.Name):
+                rhs = self._single_def(rhs, s)  # n = len(candidates) kept in a local
+            n_of, n_origin = None, "?"
+            inner = None
             if isinstance(rhs, ast.Call) and call_name(rhs) == "len" and rhs.args:
-                n_of = canon(rhs.args[0])
-            elif isinstance(rhs, ast.Subscript) and isinstance(rhs.value, ast.Attribute) and rhs.value.attr == "shape":
-                n_of = canon(rhs.value.value)
-            detail.update({"cmp": op.__name__, "len_of": n_of})
-            if n_of == canon(first):
+                inner = rhs.args[0]
+            elif isinstance(rhs, ast.Subscript) and isinstance(rhs.value, ast.Attribute) and rhs.value.attr == "shape" and const_num(rhs.slice) == 0:
+                inner = rhs.value.value
+            if inner is not None:
+                n_of = canon(inner)
+                n_origin = self._origin(inner, s)
+            detail.update({"cmp": op.__name__, "len_of": n_of, "len_origin": n_origin})
+            # the length is that of the first stacked block when it has the same origin (row-wise images of one another
+            # have the same number of rows) or is that block itself
+            is_first = n_of is not None and (n_of == canon(first) or (n_origin == o1 and o1 != o2 and n_origin != "?"))
+            if is_first:
                 if o1 == "cand" and o2 == "log" and op in (ast.Lt,):
                     return Stage("removal", s, detail, False,
                                  "np.unique(vstack((candidates, log)), return_index=True) reports the *first* occurrence of a row; a candidate that equals a logged row occurs first in the candidate block, "
